@@ -1,5 +1,7 @@
 package jmespath
 
+import "encoding/json"
+
 // C09: cost is bounded by sizes, never by the magnitude of a number.
 //
 // The engine's cost monitor raises an event when (a) a path needs more than
@@ -75,4 +77,24 @@ func H_C09_index() {
 	} else {
 		vrtAssert(got == nil, "out-of-range index is null")
 	}
+}
+
+// H_C09_spellings: numbers whose spelling carries a huge exponent (or many
+// digits) in the positions where an integer is required: the cost may not
+// follow the exponent's value.
+var c09Spellings = []string{
+	"0e900000000000", "-0E+9223372036854775807", "0e4000000000000000000", "1e400", "1e-400", "0.0e99999999999", "1e18", "9e18", "1e19", "-1e19",
+	"0e-999999999999", "0.000000000000000000000000000000000000000000000001e48", "1000000000000000000000000000000000000000000e-42", "1E+0", "00",
+}
+
+func H_C09_spellings() {
+	vrtMaxAlloc(16)
+	vrtBudget(60000)
+	k := vrtChoose("expr", len(c09Params))
+	vrtNote("template:" + c09Params[k])
+	c := json.Number(c09Spellings[vrtChoose("c", len(c09Spellings))])
+	d := json.Number(c09Spellings[vrtChoose("d", len(c09Spellings))])
+	doc := map[string]any{"a": "abcabc", "b": "c", "c": c, "d": d}
+	_, _ = Search(c09Params[k], doc)
+	vrtReach("done")
 }
